@@ -329,7 +329,18 @@ func envelopes(c *core.Ctx, rng *rand.Rand) []interface{} {
 	s.SetWorkerCount(1)
 	for _, o := range outs {
 		o := o
-		s.Handle("e."+o.name, res.Call("m", o.do), res.GetModel(func(r res.ModelRequest) {
+		withMeta := func(status, header bool) res.CallHandler {
+			return func(r res.CallRequest) {
+				if status {
+					r.SetResponseStatus(201)
+				}
+				if header {
+					r.ResponseHeader().Set("X-Test", "1")
+				}
+				o.do(r)
+			}
+		}
+		s.Handle("e."+o.name, res.Call("m", o.do), res.Call("hstatus", withMeta(true, false)), res.Call("hheader", withMeta(false, true)), res.Call("hboth", withMeta(true, true)), res.GetModel(func(r res.ModelRequest) {
 			r.Model(map[string]interface{}{"v": o.data})
 		}))
 	}
@@ -356,6 +367,48 @@ func envelopes(c *core.Ctx, rng *rand.Rand) []interface{} {
 	defer func() { s.Shutdown(); <-done }()
 	var recs []interface{}
 	for i, o := range outs {
+		// the same outcome on a request flagged as HTTP whose handler sets meta (status / header) first
+		for mv, metaName := range []string{"status", "header", "both"} {
+			if o.name == "panic" || o.name == "silent" || o.name == "bad" {
+				continue
+			}
+			hinbox := fmt.Sprintf("inbox.h%d_%d", i, mv)
+			conn.Deliver("call.test.e."+o.name+".h"+metaName, hinbox, []byte(`{"isHttp":true}`))
+			select {
+			case <-rq:
+			case <-time.After(2 * time.Second):
+				continue
+			}
+			hm := conn.PubsOn(hinbox)
+			if len(hm) != 1 {
+				continue
+			}
+			hr := resprot.ParseResponse(hm[0].Data)
+			classes, cls := 0, ""
+			if hr.HasResult() {
+				classes++
+				cls = "result"
+			}
+			if hr.HasResource() {
+				classes++
+				cls = "resource"
+			}
+			if hr.HasError() {
+				classes++
+				cls = "error"
+			}
+			decoded := false
+			switch o.expect {
+			case "result":
+				var v interface{}
+				decoded = hr.ParseResult(&v) == nil && reflect.DeepEqual(v, o.data)
+			case "resource":
+				decoded = string(hr.Resource) == o.data
+			case "error":
+				decoded = hr.Error != nil && hr.Error.Code == o.data
+			}
+			recs = append(recs, rec{"op": "envelope", "classes": classes, "cls": cls, "expect": o.expect, "decoded": decoded, "dbg": "http+" + metaName + ": " + string(hm[0].Data)})
+		}
 		inbox := fmt.Sprintf("inbox.e%d", i)
 		conn.Deliver("call.test.e."+o.name+".m", inbox, nil)
 		select {
